@@ -5,7 +5,8 @@ ENV = None  # set by shims.install(): dict(k=..., fw=..., link=..., draws=...)
 
 
 class FakeSerial:
-    def __init__(self, port=None, baudrate=9600, timeout=None, parity=None, **kw):
+    def __init__(self, port=None, baudrate=9600, timeout=None, parity=None, write_timeout=None, **kw):
+        self.write_timeout = write_timeout     # pyserial: None = a write blocks until it is done
         self.port = port
         self.baudrate = baudrate
         self.timeout = timeout
@@ -77,6 +78,15 @@ class FakeSerial:
             raise _real_serial.SerialException("port is closed")
         if self.broken:
             raise _real_serial.SerialException("write failed: device disconnected")
+        # back-pressure: the adapter accepts the bytes only after a while (device busy, buffer full)
+        blk = self.env["draws"].next("wblock", 0)
+        if blk:
+            k.probe("serial.write_blocked")
+            if self.write_timeout is not None and blk > self.write_timeout:
+                k.sleep(self.write_timeout)
+                self.env["link"].send(bytes(data)[:max(1, len(data) // 2)])    # a prefix went out
+                raise _real_serial.SerialTimeoutException("Write timeout")
+            k.sleep(blk)
         n = self.env["link"].send(data)
         k.point("serial.write")
         return n
